@@ -733,6 +733,17 @@ def copyto(dst, src, *args, **kwargs):
     # note that np.copyto is heavily used internally
     # in numpy, and it may be used with fundamental datatypes,
     # so we don't attempt to pass ndarray views to keep generality
+    where = kwargs.get("where", args[1] if len(args) > 1 else True)
+    if (
+        where is not True
+        and getattr(dst, "units", None) is not None
+        and getattr(src, "units", None) is not None
+        and src.units != dst.units
+    ):
+        # only part of dst is overwritten: it cannot be relabelled, so the
+        # source is expressed in dst's units instead
+        np.copyto._implementation(dst, src.to(dst.units), *args, **kwargs)
+        return
     np.copyto._implementation(dst, src, *args, **kwargs)
     if getattr(dst, "units", None) is not None:
         dst.units = getattr(src, "units", dst.units)
